@@ -334,6 +334,8 @@ def r74(facts, res):
     consecutive errors lie at least three lexemes apart only if the search really demands three shifts"""
     import c05
     c05.r52(facts, res, 'R7.4')
+    import c06
+    c06.r610(facts, res, 'R7.6')       # a Shift is recorded only for a move that consumed a lexeme: the three trailing shifts are three real lexemes
 
 
 def r75(facts, res):
